@@ -160,6 +160,35 @@ def gen_case(seed, tier):
         if name not in known[s] and not (ops[-1][0] == 'add' and 'nosuch' in uexpr_str(ops[-1][3])) \
                 and name not in ('celsius',):
             known[s].append(name)
+    # stratum: scaled dimensionless units raised to powers / in denominators inside a definition, next to the same
+    # expression formed from Unit objects
+    pow_terms = []
+    if rng.random() < 0.35:
+        for nm, e in (('pc', ('mul', ('ref', 'dimensionless'), ('num', '0.01'))), ('half', ('div', ('ref', 'dimensionless'), ('num', '2')))):
+            if nm not in known[0]:
+                ops.append(['add', 0, nm, e])
+                known[0].append(nm)
+        templ = [('pcsq', ('pow', ('ref', 'pc'), '2')), ('perhalf', ('div', ('num', '1'), ('ref', 'half'))),
+                 ('pcroot', ('pow', ('ref', 'pc'), '0.5')), ('mph2', ('div', ('mul', ('ref', 'metre'), ('ref', 'pc')), ('pow', ('ref', 'half'), '2'))),
+                 ('spc', ('mul', ('pow', ('ref', 'pc'), '-1'), ('ref', 'second'))), ('pch3', ('mul', ('ref', 'pc'), ('pow', ('ref', 'half'), '3')))]
+
+        def as_term(e):
+            if e[0] == 'ref':
+                return ('get', 0, e[1])
+            if e[0] == 'num':
+                return None
+            if e[0] == 'pow':
+                return ('pow', as_term(e[1]), e[2])
+            a, b = as_term(e[1]), as_term(e[2])
+            if a is None:       # 1 / x
+                return ('pow', b, '-1')
+            return (e[0], a, b)
+        for nm, e in rng.sample(templ, rng.randint(2, 4)):
+            if nm not in known[0]:
+                ops.append(['add', 0, nm, e])
+                known[0].append(nm)
+                pow_terms += [('get', 0, nm), as_term(e)]
+        pow_terms += [('get', 0, 'pc'), ('get', 0, 'half')]
     # stratum: several units of ONE dimension with extreme scales (tolerances must be relative, never absolute)
     if rng.random() < 0.5:
         basedim = rng.choice(['ampere', 'second', 'metre', 'volt', 'mole'])
@@ -182,6 +211,7 @@ def gen_case(seed, tier):
         pool = [a for a in avail if reg_of[a[0]] == reg_of[s0]]
         terms.append(gen_uterm(rng, pool or [(s0, 'second')]))
     terms.append(('get', 0, 'dimensionless'))
+    terms += pow_terms
     if rng.random() < 0.4:
         # units that carry pint's dimension-less base unit radian TOGETHER with a real dimension, next to their radian-free twins
         terms += [('get', 0, 'lux'), ('div', ('get', 0, 'candela'), ('pow', ('get', 0, 'metre'), '2')),
